@@ -34,7 +34,15 @@ def main(argv):
         code, run = run_property(a.prop, a.tier, a.root)
         if code == 0 and a.tier == 'thorough':
             from . import selfval
-            code = selfval.validate(a.prop, a.root)
+            code, summary = selfval.validate(a.prop, a.root)
+            evp = os.path.join(os.path.dirname(os.path.dirname(os.path.abspath(__file__))), 'evidence', '%s.json' % a.prop)
+            if os.path.realpath(a.root) == '/repo' and os.path.exists(evp):
+                with open(evp) as fh:
+                    ev = json.load(fh)
+                ev['coverage']['self_validation'] = summary
+                ev['wall_s'] = round(ev.get('wall_s', 0) + summary.get('wall_s', 0), 3)
+                with open(evp, 'w') as fh:
+                    json.dump(ev, fh, indent=1, default=str)
         return code
     except AnalysisError as e:
         print('ANALYSIS-ERROR property=%s %s' % (a.prop, e))
